@@ -232,7 +232,9 @@ partial def loop (h : IO.FS.Stream) (d : D) (c : Case) : IO D := do
   let (hd, k1) := k.next
   match hd with
   | "case" =>
-    let (id, _) := k1.next
+    let (id, k2) := k1.next
+    -- `case <id> alias`: the program contains the generator's alias-cache pattern (dynamic selections sharing index / width / option count)
+    let d := if (k2.next).1 == "alias" then { d with hist := d.hist.bump "pattern:alias-cache-key" } else d
     loop h { d with cases := d.cases + 1 } { id := id }
   | "ins" =>
     let ins := (k.t.toList.drop 1).map parseTy
@@ -300,9 +302,9 @@ partial def loop (h : IO.FS.Stream) (d : D) (c : Case) : IO D := do
               if impl == ["-"] then continue
               if impl != specS.take nTop && !c.reportedP then
                 -- classification for the replay file: postprocess() changed a value the un-postprocessed circuit had right
-                -- (or, without a pre-simulation because of a Node_Default, a value the model has right) / anything else
+                -- / no pre-simulation available (Node_Default) while the model agrees with the interpreter / the frontend itself
                 let sig := if tag == "post" && pre != ["-"] && pre == specS.take nTop then "postprocess-changed-value"
-                           else if tag == "post" && pre == ["-"] && model.take nTop == specS.take nTop then "postprocess-changed-value"
+                           else if tag == "post" && pre == ["-"] && model.take nTop == specS.take nTop then "not-sequential-no-pre-simulation"  -- frontend or postprocess(): cannot be told apart without a pre-simulation
                            else "frontend-not-sequential"
                 IO.println s!"PROPFAIL case={c.id} sig={sig} stage={tag} inputs=[{inS}] sequential=[{" ".intercalate specS}] impl=[{" ".intercalate impl}]"
                 d := { d with propfails := d.propfails + 1 }
